@@ -136,6 +136,34 @@ def run_case(case):
         except AttributeError:
             pass
     counters['unsynchronized_savepoints'] = int(unsync)
+    if case.get('presave'):
+        # an EARLIER checkpoint of the same object through the same front end, then an edit that advances neither the time nor the step
+        # counter nor N (and has no dynamical effect: a name, a radius without a collision module, an exit threshold that steps() never
+        # looks at); the checkpoint that is judged is the one taken after the edit, so anything the front end remembers from the first
+        # checkpoint (a cached stream, a cached file position, a cached ctypes view) shows as a stale restored state
+        try:
+            path_ = case['path']
+            if path_ == 'pickle':
+                pickle.dumps(x)
+            elif path_ == 'copy':
+                x.copy()
+            elif path_ in ('file', 'sa_get'):
+                tmp0 = os.path.join(os.getcwd(), 'c05_%d.bin' % os.getpid())
+                x.save_to_file(tmp0, delete_file=True)
+                os.unlink(tmp0)
+            else:
+                rt.save_bytes(x)
+        except Exception as e:
+            return dict(violations=[dict(mech='restore:raises:first-checkpoint:%s' % case['path'], msg='%s: %s' % (type(e).__name__, e))], counters=counters)
+        ed = case['presave']
+        j_ = ed['j'] % max(1, x.N - x.N_var)
+        if ed['what'] == 'hash':
+            x.particles[j_].hash = ctypes.c_uint32(ed['v'])
+        elif ed['what'] == 'r' and spec.get('collision', 'none') in (None, 'none'):
+            x.particles[j_].r = 1e-9 * (1 + ed['v'] % 1000)
+        else:
+            x.exit_min_distance = 1e-300 * (1 + ed['v'] % 1000)
+        counters['second_checkpoint_of_an_object_edited_since_the_first'] = 1
     S1 = rt.save_bytes(x)
     c1 = rt.sabin(S1)
     case['_N0'] = x.N
@@ -318,6 +346,8 @@ def plan(tier, seed):
             sp['exact'] = 0 if spec['integrator'] == 'whfast512' else r.choice([0, 1])
         spec['savepoint'] = sp
         cases[variant].append(dict(spec=spec, path=r.choice(['memory', 'file', 'copy', 'pickle', 'sa_get']), k=r.choice([1, 3, 10, 40, 120 if tier == 'quick' else 300])))
+        if r.random() < 0.3:
+            cases[variant][-1]['presave'] = dict(what=r.choice(['hash', 'r', 'exit']), j=r.randrange(64), v=r.randrange(1, 1 << 31))
     return cases
 
 
